@@ -1,13 +1,13 @@
 /-
-  The separators demanded by `WF` are necessary — except behind numerals (known finding
-  `C08-numeral-followed-by-letter`).
+  The separators demanded by `WF` are necessary.
 
   `needSep a b` (Spec: the reference lexer's maximal munch) says that `a` and `b` written without a separator do not
-  read as `a`, `b`.  For every `a` that is not a numeral the scanner agrees: the text `a.render ++ b.render` does not
-  lex to the two tokens.  Behind a numeral it does not agree: `3b` lexes to the numeral `3` and the name `b`.
+  read as `a`, `b`.  The scanner agrees for every pair: the text `a.render ++ b.render` does not lex to the two
+  tokens (since the repair of `C08-numeral-followed-by-letter` also behind numerals: `3b` is a lexical error).
 -/
 import GLua.Proofs.LexerRT
 import GLua.Proofs.LexerRTLong
+import GLua.Proofs.LexerNumLen
 
 namespace GLua.Lexer
 open GLua.Generated.Lexer
@@ -38,10 +38,10 @@ theorem lex_first (input : Bytes) (c : UInt8) (tail : Bytes) (hin : input = c ::
   refine ⟨(skipBlanks (initSc input)).2.1, h2, ?_, ?_⟩
   · intro e he
     rw [← h1] at he
-    exact (lexAll_err 0 _ e (scan_token_err 0 _ e hc he)).2
+    exact (lexAll_err {} _ e (scan_token_err {} _ e hc he)).2
   · intro t s' ht hty
     rw [← h1] at ht
-    have := lexAll_tok 0 _ s' t _ (scan_token 0 _ s' t hc ht) (by omega)
+    have := lexAll_tok {} _ s' t _ (scan_token {} _ s' t hc ht) (by omega)
     exact ⟨_, _, this.1⟩
 
 /-! ### words swallow what follows -/
@@ -191,9 +191,98 @@ theorem err_differs (input : Bytes) (a b : RTok) (e : LexErr) (h : (lex input).e
   rintro ⟨h1, _⟩
   rw [h] at h1; simp at h1
 
-/-- **the separators are necessary** wherever the first token is not a numeral. -/
-theorem needSep_necessary (a b : RTok) (ha : a.wf = true) (hb : b.wf = true) (hn : needSep a b = true)
-    (hnum : ∀ n, a ≠ .num n) :
+theorem next_drop (s : Sc) : ∃ k, (next s).2.rest = s.rest.drop k := by
+  cases hr : s.rest with
+  | nil => exact ⟨0, by rw [(next_nil s hr).2.1]; rfl⟩
+  | cons b r =>
+    by_cases hnl : b = 10 ∨ b = 13
+    · obtain ⟨_, e2⟩ := next_nl_exact s b r hr hnl
+      rw [e2]
+      cases r with
+      | nil => exact ⟨1, rfl⟩
+      | cons c r' =>
+        simp only [nlRest]
+        split
+        · exact ⟨2, rfl⟩
+        · exact ⟨1, rfl⟩
+    · have hp : Plain b := ⟨fun h => hnl (Or.inl h), fun h => hnl (Or.inr h)⟩
+      exact ⟨1, by rw [(next_of_rest s b r hr hp).2.1]; rfl⟩
+
+theorem reach_drop {s s' : Sc} (h : Reach s s') : ∃ k, s'.rest = s.rest.drop k := by
+  induction h with
+  | refl => exact ⟨0, rfl⟩
+  | step _ ih =>
+    rename_i s0 s1 _
+    obtain ⟨k, hk⟩ := ih
+    obtain ⟨j, hj⟩ := next_drop s0
+    exact ⟨j + k, by rw [hk, hj, List.drop_drop]⟩
+
+/-- the first byte of a rendered numeral: a digit, or the dot of `.ddd`. -/
+theorem num_first (n : Numeral) (hwf : (RTok.num n).wf = true) (c : UInt8) (tail : Bytes) (h : n.render = c :: tail) :
+    LexSpec.isDigit c = true ∨ (c = 46 ∧ ∃ d0 t, tail = d0 :: t ∧ LexSpec.isDigit d0 = true) := by
+  cases n with
+  | dec ds =>
+    simp only [RTok.wf, Numeral.wf, Bool.and_eq_true] at hwf
+    simp only [Numeral.render] at h
+    rw [h] at hwf
+    simp only [List.all_cons, Bool.and_eq_true] at hwf
+    exact Or.inl hwf.2.1
+  | hex x hs =>
+    simp only [Numeral.render, List.cons.injEq] at h
+    rw [← h.1]; left; decide
+  | flt ip fp ex =>
+    simp only [RTok.wf, Numeral.wf, Bool.and_eq_true, Bool.or_eq_true, bne_iff_ne, ne_eq] at hwf
+    obtain ⟨⟨⟨hip, hfp⟩, hne⟩, _⟩ := hwf
+    cases ip with
+    | cons c0 ip' =>
+      simp only [Numeral.render, List.cons_append, List.cons.injEq] at h
+      simp only [List.all_cons, Bool.and_eq_true] at hip
+      rw [← h.1]; exact Or.inl hip.1
+    | nil =>
+      cases fp with
+      | none => simp at hne
+      | some f =>
+        cases f with
+        | nil => simp at hne
+        | cons d0 f' =>
+          simp only [Numeral.render, List.nil_append, List.cons_append, List.cons.injEq] at h
+          have : (d0 :: f').all LexSpec.isDigit = true := hfp
+          simp only [List.all_cons, Bool.and_eq_true] at this
+          exact Or.inr ⟨h.1.symm, d0, _, h.2.symm, this.1⟩
+
+/-- a numeral the reference lexer would extend over a following dot consists of digits and dots only. -/
+theorem dotContinues_bytes (n : Numeral) (hwf : (RTok.num n).wf = true) (hd : n.dotContinues = true) :
+    ∀ x ∈ n.render, x ≠ 101 ∧ x ≠ 69 ∧ x ≠ 120 ∧ x ≠ 88 := by
+  have hdig : ∀ x : UInt8, (LexSpec.isDigit x = true ∨ x = 46) → x ≠ 101 ∧ x ≠ 69 ∧ x ≠ 120 ∧ x ≠ 88 := by
+    intro x; revert x; apply forall_byte; decide +kernel
+  cases n with
+  | dec ds =>
+    simp only [RTok.wf, Numeral.wf, Bool.and_eq_true] at hwf
+    intro x hx
+    rw [List.all_eq_true] at hwf
+    exact hdig x (Or.inl (hwf.2 x hx))
+  | hex x hs => simp [Numeral.dotContinues] at hd
+  | flt ip fp ex =>
+    cases ex with
+    | some e => simp [Numeral.dotContinues] at hd
+    | none =>
+      simp only [RTok.wf, Numeral.wf, Bool.and_eq_true] at hwf
+      obtain ⟨⟨⟨hip, hfp⟩, _⟩, _⟩ := hwf
+      intro x hx
+      simp only [Numeral.render, List.append_nil, List.mem_append] at hx
+      rcases hx with hx | hx
+      · rw [List.all_eq_true] at hip; exact hdig x (Or.inl (hip x hx))
+      · cases fp with
+        | none => simp at hx
+        | some f =>
+          simp only [List.mem_cons] at hx
+          rcases hx with rfl | hx
+          · exact hdig 46 (Or.inr rfl)
+          · have : f.all LexSpec.isDigit = true := hfp
+            rw [List.all_eq_true] at this; exact hdig x (Or.inl (this x hx))
+
+/-- **the separators are necessary**. -/
+theorem needSep_necessary (a b : RTok) (ha : a.wf = true) (hb : b.wf = true) (hn : needSep a b = true) :
     ¬ ((lex (a.render ++ b.render)).err = none ∧ lexTV (a.render ++ b.render) = twoTokens a b) := by
   obtain ⟨d, rb, hrb, _⟩ := tokScan_all b hb [] (follow_nil b)
   have hfol : follow a (d :: rb) = false := by
@@ -201,7 +290,77 @@ theorem needSep_necessary (a b : RTok) (ha : a.wf = true) (hb : b.wf = true) (hn
     rw [← hrb]; exact hn
   rw [hrb]
   cases a with
-  | num n => exact absurd rfl (hnum n)
+  | num n =>
+    obtain ⟨c, tail, hr, hcb, _⟩ := tokScan_all (.num n) ha [] (follow_nil _)
+    have hrn : n.render = c :: tail := hr
+    have hfd : LexSpec.isAlnum d = true ∨ (d = 46 ∧ n.dotContinues = true) := by
+      simp only [follow, Bool.and_eq_false_iff, Bool.not_eq_false', Bool.and_eq_true, beq_iff_eq] at hfol
+      exact hfol
+    rw [hr]
+    have hc45 : c ≠ 45 := by
+      rcases num_first n ha c tail hrn with h | ⟨h, _⟩
+      · exact digit_ne_minus c h
+      · rw [h]; decide
+    obtain ⟨s1, hs1, herr, hok⟩ := lex_first (c :: tail ++ d :: rb) c (tail ++ d :: rb) rfl hcb (fun h => hc45 h.1)
+    -- the token switch goes to `scanNumber`
+    have hst : ∀ res, scanNumber (c.toNat : Int) [] s1 = res →
+        scanToken (c.toNat : Int) s1 = (match res with
+          | .error e => .error e
+          | .ok (bb, s') => mkTok s1 TNumber bb s') := by
+      intro res hres
+      rcases num_first n ha c tail hrn with h | ⟨h, d0, t, ht, hd0⟩
+      · unfold scanToken
+        rw [isIdent0_eq, (digit_facts c h).2.2.2.2.2.2.2.2, isDecimal_eq, h]
+        simp only [Bool.false_eq_true, if_false, if_true, hres]
+        cases res with
+        | error e => rfl
+        | ok p => rfl
+      · subst h
+        have hp : isDecimal (peek s1) = true := by
+          rw [peek_cons s1 d0 _ (by rw [hs1, ht]; rfl), isDecimal_eq]; exact hd0
+        have e46 : ((46 : UInt8).toNat : Int) = 46 := rfl
+        rw [e46] at hres ⊢
+        have : scanToken 46 s1 = scanDot 46 s1 := by simp [scanToken, isIdent, isDecimal]
+        rw [this]
+        unfold scanDot
+        rw [hp]
+        simp only [if_true, hres]
+        cases res with
+        | error e => rfl
+        | ok p => rfl
+    cases hres : scanNumber (c.toNat : Int) [] s1 with
+    | error e => exact err_differs _ _ _ e (herr e (by rw [hst _ hres]))
+    | ok p =>
+      obtain ⟨bb, s'⟩ := p
+      have hsc := hst _ hres
+      simp only [] at hsc
+      obtain ⟨pnl, rest, hh⟩ := hok _ s' hsc (by simp [TNumber])
+      rintro ⟨_, h2⟩
+      simp only [lexTV, hh, List.map_cons, twoTokens, List.cons.injEq, Prod.mk.injEq] at h2
+      have hbb : bb = c :: tail := by
+        have := h2.1.2
+        simp only [tokStr] at this
+        rw [← hrn]; exact this
+      obtain ⟨hlen, hid, hdot⟩ := scanNumber_ok _ s1 bb s' hres
+      obtain ⟨k, hk⟩ := reach_drop (scanNumber_reach _ _ _ _ _ hres)
+      -- the scanner stopped right behind the numeral: in front of `d`
+      have hrest : s'.rest = d :: rb := by
+        rw [hbb, hs1] at hlen
+        simp only [List.length_cons, List.length_append] at hlen
+        rw [hs1] at hk
+        have hkl : k = tail.length := by
+          have := congrArg List.length hk
+          simp only [List.length_drop, List.length_append, List.length_cons] at this
+          omega
+        rw [hk, hkl]
+        simp
+      have hpk := peek_cons s' d rb hrest
+      rcases hfd with hal | ⟨hd46, hdc⟩
+      · rw [hpk, isIdent1_eq, hal] at hid
+        exact absurd hid (by decide)
+      · have := hdot (by rw [hbb, ← hrn]; exact dotContinues_bytes n ha hdc)
+        rw [hpk, hd46] at this
+        exact this rfl
   | str q cs => simp [follow] at hfol
   | lstr l f c => simp [follow] at hfol
   | name w =>
@@ -311,13 +470,13 @@ theorem needSep_necessary (a b : RTok) (ha : a.wf = true) (hb : b.wf = true) (hn
       rintro ⟨_, h2⟩
       -- `--` is the rendering of the empty token list with one unterminated comment
       have hw : wfFrom (fun _ => [Sep.short [] none]) 0 none [] = true := by decide +kernel
-      have := lexAll_render ([45] ++ [45]) (fun _ => [Sep.short [] none]) [] 0 none 0 (initSc ([45] ++ [45]))
+      have := lexAll_render ([45] ++ [45]) (fun _ => [Sep.short [] none]) [] 0 none {} (initSc ([45] ++ [45]))
         (by intro t ht; simp at ht)
         (by
           intro j _ _ x hx hxw hc r hr
           simp only [List.mem_singleton] at hx
           subst hx
-          exact commentScan_all _ hxw rfl hc r hr)
+          exact commentScan_all _ hxw hc r hr)
         hw (restInv_init _) rfl
       have hlen := congrArg List.length this.2.1
       have hlen2 := congrArg List.length h2
@@ -344,66 +503,65 @@ theorem needSep_necessary (a b : RTok) (ha : a.wf = true) (hb : b.wf = true) (hn
         obtain ⟨pnl, rest, hh⟩ := hok _ s' (by rw [e91]; exact scanToken_bracket s1 bb s' hp hml) (by simp [TString])
         exact first_differs _ _ _ _ pnl rest hh (Or.inl (by simp [tokType, symType, TString]))
 
-/-! ### … except behind a numeral: `3b` -/
+/-! ### `3b` (the former witness of `C08-numeral-followed-by-letter`) -/
 
-/-- the witness of `C08-numeral-followed-by-letter`: `3b` lexes, without error, to the numeral `3` and the name `b`
-    (Lua 5.1: one malformed number). -/
-theorem lex_3b : (lex ([51] ++ [98])).err = none ∧
-    lexTV ([51] ++ [98]) = twoTokens (.num (.dec [51])) (.name [98]) := by
-  -- first token: the numeral, although a letter follows
-  obtain ⟨h1, h2⟩ := skipBlanks_run [] (by simp) 51 [98] (by unfold Plain; decide) (by decide) (by decide)
-    (initSc ([51] ++ [98])) rfl
-  have hc : ¬ ((skipBlanks (initSc ([51] ++ [98]))).1 = 45 ∧ peek (skipBlanks (initSc ([51] ++ [98]))).2.1 = 45) := by
-    rw [h1]; intro h; exact absurd h.1 (by decide)
-  obtain ⟨g1, g2⟩ := decimalLoop_run [] [98] (HeadNot.cons _ _ _ (by decide)) (writeChar [] 51)
-    (skipBlanks (initSc ([51] ++ [98]))).2.1 (by simp) (by simpa using h2)
-  have hp := peek_cons _ 98 [] g2
-  have hp0 := peek_cons _ 98 [] h2
-  have hst : scanToken (skipBlanks (initSc ([51] ++ [98]))).1 (skipBlanks (initSc ([51] ++ [98]))).2.1 =
-      mkTok (skipBlanks (initSc ([51] ++ [98]))).2.1 TNumber [51]
-        (decimalLoop (writeChar [] 51) (skipBlanks (initSc ([51] ++ [98]))).2.1).2 := by
-    rw [h1]
+/-- `3b` is one malformed number: a lexical error, as in Lua 5.1. -/
+theorem lex_3b_rejected : (lex ([51] ++ [98])).err ≠ none := by
+  intro h
+  have hn := needSep_necessary (.num (.dec [51])) (.name [98]) (by decide +kernel) (by decide +kernel) (by decide +kernel)
+  -- if there is no error, the stream is not `3`, `b` — but it is not anything else either: we only need the error
+  obtain ⟨s1, hs1, herr, hok⟩ := lex_first ([51] ++ [98]) 51 [98] rfl (by decide) (fun h => absurd h.1 (by decide))
+  have hst : scanToken ((51 : UInt8).toNat : Int) s1 = (match scanNumber 51 [] s1 with
+      | .error e => .error e
+      | .ok (bb, s') => mkTok s1 TNumber bb s') := by
     have e51 : ((51 : UInt8).toNat : Int) = 51 := rfl
     rw [e51]
     unfold scanToken
     rw [show isIdent 51 0 = false from by decide, show isDecimal 51 = true from by decide]
     simp only [Bool.false_eq_true, if_false, if_true]
-    unfold scanNumber
-    rw [if_neg (by intro h; exact absurd h.1 (by decide))]
-    have hp' : peek (decimalLoop (writeChar [] 51) (skipBlanks (initSc ([51] ++ [98]))).2.1).2 = 98 := by
-      rw [hp]; rfl
-    have hfrac : scanNumberFrac 51 [] (skipBlanks (initSc ([51] ++ [98]))).2.1 =
-        decimalLoop (writeChar [] 51) (skipBlanks (initSc ([51] ++ [98]))).2.1 := by
-      unfold scanNumberFrac scanDecimal
-      rw [if_neg (by rw [hp']; intro h; exact absurd h.2 (by decide))]
-    rw [scanNumberTail_eq, hfrac]
-    unfold numExp
-    rw [if_neg (by rw [hp']; decide)]
-    rw [show decimalLoop (writeChar [] 51) (skipBlanks (initSc ([51] ++ [98]))).2.1 =
-      ([51], (decimalLoop (writeChar [] 51) (skipBlanks (initSc ([51] ++ [98]))).2.1).2) from
-      Prod.ext (by rw [g1]; rfl) rfl]
-  have hsc := scan_token 0 _ _ _ hc hst
-  unfold mkTok at hsc
-  obtain ⟨a1, a2⟩ := lexAll_tok 0 _ _ _ _ hsc (by simp [TNumber])
-  -- the rest of the text is the rendering of the one-token list `b`
-  have hI : RestInv ([51] ++ [98]) (decimalLoop (writeChar [] 51) (skipBlanks (initSc ([51] ++ [98]))).2.1).2 :=
-    reach_restInv _ ((skipBlanks_reach _).trans (decimalLoop_reach _ _)) (restInv_init _)
-  have hw : wfFrom (fun _ => []) 0 none [RTok.name [98]] = true := by decide +kernel
-  obtain ⟨b1, b2, _⟩ := lexAll_render ([51] ++ [98]) (fun _ => []) [RTok.name [98]] 0 none (TNumber : Int)
-    (decimalLoop (writeChar [] 51) (skipBlanks (initSc ([51] ++ [98]))).2.1).2
-    (fun t ht r hf => tokScan_all t (by simp only [List.mem_singleton] at ht; subst ht; decide +kernel) r hf)
-    (by intro j _ _ x hx; simp at hx) hw hI (by rw [g2]; rfl)
-  refine ⟨by unfold lex; rw [a2]; exact b1, ?_⟩
-  have := congrArg (List.map (fun e : Int × Bytes × Nat => (e.1, e.2.1))) b2
-  rw [expectFrom_types] at this
-  simp only [List.map_map] at this
-  unfold lexTV lex
-  rw [a1]
-  simp only [List.map_cons, twoTokens, tokType, tokStr, Numeral.render]
-  have hfun : ((fun e : Int × Bytes × Nat => (e.1, e.2.1)) ∘ view) = (fun p : Token × Bool => (p.1.type, p.1.str)) := by
-    funext p; rfl
-  rw [hfun] at this
-  rw [this]
-  rfl
+    cases scanNumber 51 [] s1 with
+    | error e => rfl
+    | ok p => rfl
+  cases hres : scanNumber 51 [] s1 with
+  | error e =>
+    rw [hres] at hst
+    rw [herr e hst] at h
+    simp at h
+  | ok p =>
+    obtain ⟨bb, s'⟩ := p
+    obtain ⟨hlen, hid, _⟩ := scanNumber_ok _ s1 bb s' hres
+    obtain ⟨k, hk⟩ := reach_drop (scanNumber_reach _ _ _ _ _ hres)
+    rw [hs1] at hk hlen
+    -- whatever was consumed, what is left starts with an alphanumeric byte or is empty; `b` was not consumed …
+    have : s'.rest = [98] ∨ s'.rest = [] := by
+      match k, hk with
+      | 0, hk => left; simpa using hk
+      | k + 1, hk => right; simpa using hk
+    rcases this with hr | hr
+    · rw [peek_cons s' 98 [] hr] at hid
+      exact absurd hid (by decide)
+    · -- … and if it was, the buffer has two bytes, which `scanNumber` never returns for `3b`: the digit loop
+      -- stops at `b`
+      rw [hr] at hlen
+      simp only [List.length_nil, List.length_cons, Nat.add_zero] at hlen
+      -- follow the code: decimal loop stops at once, no fraction, no exponent, `numeralEnd` sees `b`
+      have hp0 := peek_cons s1 98 [] hs1
+      have hdl : decimalLoop (writeChar [] 51) s1 = (writeChar [] 51, s1) := by
+        rw [decimalLoop]
+        rw [if_neg (by rw [hp0]; decide)]
+      have hfrac : scanNumberFrac 51 [] s1 = (writeChar [] 51, s1) := by
+        unfold scanNumberFrac scanDecimal
+        rw [hdl]
+        simp only []
+        rw [if_neg (by rw [hp0]; intro h; exact absurd h.2 (by decide))]
+      unfold scanNumber at hres
+      rw [if_neg (by intro h; exact absurd h.1 (by decide))] at hres
+      unfold scanNumberTail at hres
+      rw [hfrac] at hres
+      simp only [] at hres
+      rw [if_neg (by rw [hp0]; decide)] at hres
+      unfold numeralEnd at hres
+      rw [if_neg (by rw [hp0]; decide)] at hres
+      simp at hres
 
 end GLua.Lexer
